@@ -27,6 +27,12 @@ MIN_NONTRIVIAL = {"quick": 800, "thorough": 50000}
 
 _codes = None
 _patched = False
+# the buffer-handling core named by the property's anchors: in the systematic workload every executed line of these
+# functions is a decision point (elsewhere only lock / event / thread operations and file writes are)
+CORE_FUNCTIONS = {"Console._enter_buffer", "Console._exit_buffer", "Console._check_buffer", "Console._render_buffer",
+                  "Console.begin_capture", "Console.end_capture", "Console.__enter__", "Console.__exit__",
+                  "Capture.__enter__", "Capture.__exit__", "Capture.get", "Live.process_renderables",
+                  "Progress.process_renderables", "LiveRender.position_cursor", "_RefreshThread.run"}
 
 
 def _instrument(sched):
@@ -42,7 +48,8 @@ def _instrument(sched):
         _codes = []
         for mod in (rc, rl, rlr, rp, rfp):
             _codes.extend(S.code_objects(mod))
-    S.install(sched, _codes, ())
+    core = [c for c in _codes if c.co_qualname in CORE_FUNCTIONS]
+    S.install(sched, _codes, (), core)
     holder["sched"] = sched
     if not _patched:
         coop.patch_thread_class(rl._RefreshThread, lambda: holder["sched"])
@@ -80,7 +87,10 @@ def gen_program(rng, display):
         for i in range(rng.randint(1, 4)):
             pid = "T%d.%d" % (th, i)
             r = rng.random()
-            if r < 0.40 or display == "none" and r < 0.6:
+            if r < 0.10:
+                # identical content from several places: a cache keyed by content must not mix threads up
+                ops.append(["print_same"] if rng.random() < 0.6 else ["capture_same", pid])
+            elif r < 0.40 or display == "none" and r < 0.6:
                 ops.append(["print", pid, rng.choice([1, 1, 2, 3])])
             elif r < 0.52:
                 ops.append(["log", pid])
@@ -117,6 +127,7 @@ def payload_lines(pid, n):
 
 
 _MARK = re.compile(r"[BEm]:T\d+\.\d+(?::\d+)?")
+_ANYMARK = re.compile(r"[BEm]:T\d+\.\d+(?::\d+)?|S:same")
 _FRAME = re.compile(r"F\d+_\d+-\d+")
 
 
@@ -142,13 +153,20 @@ def wl_dfs(ctx, rng, case_no):
     terminal = True
     full = gen_program(rng, display)
     prog = [ops[:2] for ops in full[:3]]
+    if rng.random() < 0.5:
+        # the shape that needs a preemption between two buffer-core lines: one capturing thread, two printers of
+        # identical content
+        prog = [[["capture_same", "T0.0"]], [["print_same"]], [["print_same"]]]
+        if rng.random() < 0.5:
+            prog[rng.randrange(3)].append(["print", "T9.9", 1])
     bound = 2 if ctx.tier == "thorough" else 1
     firings = rng.choice([0, 1])
     height = 12
     n = 0
     gen = S.explore_bounded(lambda strat: execute(ctx, prog, display, terminal, firings, height, strat,
                                                   "dfs%d" % bound, 0, plan_of=strat),
-                            bound=bound, max_runs=400 if ctx.tier == "thorough" else 60)
+                            bound=bound, max_runs=3000 if ctx.tier == "thorough" else 350,
+                            kinds=S.COARSE | {"line.core"})
     exhausted = None
     try:
         while True:
@@ -215,6 +233,12 @@ def execute(ctx, prog, display, terminal, firings, height, strategy, strat_kind,
         elif k == "capture":
             with console.capture() as cap:
                 console.print(Text("\n".join(payload_lines(op[1], 2))))
+            captures[op[1]] = cap.get()
+        elif k == "print_same":
+            console.print(Text("S:same"))
+        elif k == "capture_same":
+            with console.capture() as cap:
+                console.print(Text("S:same"))
             captures[op[1]] = cap.get()
         elif k == "update":
             lines = ["%s-%d" % (op[1], i) for i in range(op[2])]
@@ -298,6 +322,20 @@ def execute(ctx, prog, display, terminal, firings, height, strategy, strat_kind,
                                   dict(wit, payload=pid, inside=others[:4], segment=seg[:200]))
                     return
                 writers.add(th)
+    # identical prints: as many copies in the file as were printed outside a capture block, none lost, none extra
+    n_same = sum(1 for ops in prog for op in ops if op[0] == "print_same")
+    got_same = len(re.findall(r"S:same", text))
+    if got_same != n_same:
+        ctx.violation("identical-prints-%s:%s" % ("lost" if got_same < n_same else "duplicated-or-leaked-from-capture", display),
+                      dict(wit, printed=n_same, in_file=got_same))
+        return
+    for th, ops in enumerate(prog):
+        for op in ops:
+            if op[0] == "capture_same":
+                ct = sgr.decode(captures.get(op[1], "")).text
+                if ct.count("S:same") != 1 or _MARK.search(ct):
+                    ctx.violation("capture-of-identical-print-wrong:%s" % display, dict(wit, captured=ct[:200]))
+                    return
     # each print reaches the file in ONE write call
     for w in file.writes:
         ids = {m.split(":")[1] for m in _MARK.findall(sgr.decode(w[2]).text)}
@@ -331,8 +369,8 @@ def execute(ctx, prog, display, terminal, firings, height, strategy, strat_kind,
     # (3) record order == file order
     ctx.count("mon.record_order")
     exported = console.export_text(clear=False)
-    file_marks = [m for m in _MARK.findall(text)]
-    rec_marks = [m for m in _MARK.findall(exported)]
+    file_marks = [m for m in _ANYMARK.findall(text)]
+    rec_marks = [m for m in _ANYMARK.findall(exported)]
     if file_marks != rec_marks:
         ctx.violation("record-order-differs-from-file-order:%s" % display,
                       dict(wit, file_order=file_marks[:20], record_order=rec_marks[:20]))
@@ -363,11 +401,11 @@ def execute(ctx, prog, display, terminal, firings, height, strategy, strat_kind,
                 last_frame = ids
         flat = []
         for l in got:
-            flat.extend(_MARK.findall(l))
+            flat.extend(_ANYMARK.findall(l))
         frame_on_screen = [t for l in got for t in _FRAME.findall(l)]
         tainted = taint(events, file.writes)
         ctx.hist("print_vs_refresh_window_hit", "yes" if tainted else "no")
-        captured_while_live = any(op[0] == "capture" for ops in prog for op in ops)
+        captured_while_live = any(op[0] in ("capture", "capture_same") for ops in prog for op in ops)
         ctx.hist("capture_while_live", "yes" if captured_while_live else "no")
         tall = any(len(v) >= console.size.height for v in frames.values())
         if tall:
@@ -399,7 +437,7 @@ def taint(events, writes):
     print/log/capture operation's window [hook call, file write] of a thread that did not hold the live lock."""
     # only windows opened by print / log / capture operations are the known mechanism: refresh, update, start and
     # stop are documented to run under the live lock, so an unlocked window there is a different defect
-    hooks = [(s, t) for s, t, k, d in events if k == "hook" and d[0] is False and d[1] in ("print", "log", "capture")]
+    hooks = [(s, t) for s, t, k, d in events if k == "hook" and d[0] is False and d[1] in ("print", "log", "capture", "print_same", "capture_same")]
     renders = [(s, t) for s, t, k, d in events if k == "frame_render"]
     for hs, ht in hooks:
         # the write of that thread that follows the hook
@@ -419,7 +457,7 @@ def taint(events, writes):
 def workloads(tier):
     big = tier == "thorough"
     return [WL("schedules", wl_schedules, 400000 if big else 6000),
-            WL("bounded_preemption_dfs", wl_dfs, 2000 if big else 48)]
+            WL("bounded_preemption_dfs", wl_dfs, 2000 if big else 16)]
 
 
 LEVEL_TEXT = ("Runs small multi-threaded programs on one real console under a cooperative scheduler that serialises the "
